@@ -1196,9 +1196,10 @@ class Simulation:
 
             # Get weights, calculate misfit.
             weights = self.data['weights']
-            self._misfit = np.sum(weights*(residual.conj()*residual)).real/2
+            misfit = np.sum(weights*(residual.conj()*residual)).real/2
+            self._misfit = float(misfit.data)
 
-        return self._misfit.data
+        return self._misfit
 
     def _bcompute(self):
         """Compute bfields asynchronously for all sources and frequencies."""
